@@ -10,6 +10,7 @@ import (
 )
 
 func init() {
+	vpHarnesses["vpC08_O4"] = vpC08_O4
 	vpHarnesses["vpC08_O3"] = vpC08_O3
 	vpHarnesses["vpC08_O1"] = vpC08_O1
 	vpHarnesses["vpC08_O2"] = vpC08_O2
@@ -253,4 +254,42 @@ func vpC08_O3() {
 		vpAssume(err == nil)
 		vpAssert("a list containing such a proof is rejected", !pl.Verify(keys, ctx, nonce, false, nil))
 	}
+}
+
+// C08-O4: misplaced sub-proofs. An honest, verifying disclosure proof (real
+// prover; attribute 1 disclosed, 2 hidden, optionally with a true range
+// statement on attribute 2) gets an additional, syntactically complete range
+// proof with arbitrary content under a key that is not a hidden attribute's
+// index (negative, disclosed, beyond the largest hidden index, len(R), 2^31):
+// the list is malformed and the verdict is rejection, without a panic.
+func vpC08_O4() {
+	pk, sk := vpKeys(0, 4, 1024, false)
+	cred := vpCredential(pk, sk, "a", 2, 256)
+	ctx, nonce := vpBigBits("ctx", 256), vpBigBits("nonce", 80)
+	var stmts map[int][]*rangeproof.Statement
+	if vpBool("withRangeStatement") {
+		bound := vpBig("bound")
+		vpAssume(bound.Sign() >= 0 && cred.Attributes[2].Cmp(bound) >= 0 && new(big.Int).Sub(cred.Attributes[2], bound).BitLen() <= 255)
+		stmts = map[int][]*rangeproof.Statement{2: {{Sign: 1, Factor: 1, Bound: bound}}}
+	}
+	proof, err := cred.CreateDisclosureProof([]int{1}, stmts, false, ctx, nonce)
+	vpAssume(err == nil)
+	// (the ungrafted proof is kept as a separate object: a proof object caches what verification
+	// derived from it, and the property is about lists as they arrive, not about objects that are
+	// altered in memory between two verifications)
+	clean := *proof
+	clean.RangeProofs = map[int][]*rangeproof.Proof{}
+	for k, v := range proof.RangeProofs {
+		clean.RangeProofs[k] = v
+	}
+	if len(clean.RangeProofs) == 0 {
+		clean.RangeProofs = nil
+	}
+	if proof.RangeProofs == nil {
+		proof.RangeProofs = map[int][]*rangeproof.Proof{}
+	}
+	keys := []int{-1, 1, 3, 4, 7, 1 << 31}
+	proof.RangeProofs[keys[vpChoose("graftKey", len(keys))]] = []*rangeproof.Proof{vpShapeRangeProof("graft", 3+vpChoose("rpn", 2))}
+	vpAssert("a proof with a range proof at a non-hidden index is rejected", !ProofList{proof}.Verify([]*gabikeys.PublicKey{pk}, ctx, nonce, false, nil))
+	vpAssert("the same proof without the graft verifies", ProofList{&clean}.Verify([]*gabikeys.PublicKey{pk}, ctx, nonce, false, nil))
 }
